@@ -12,6 +12,7 @@ from sklearn.utils.validation import check_is_fitted
 
 from fairlearn.reductions._moments import ClassificationMoment
 from fairlearn.reductions._moments.moment import Moment
+from fairlearn.utils import _verif_trace
 
 from ._constants import (
     _ACCURACY_MUL,
@@ -236,6 +237,21 @@ class ExponentiatedGradient(BaseEstimator, MetaEstimatorMixin):
                 gap_LP,
             )
 
+            if _verif_trace._ON:
+                _verif_trace.emit(
+                    "eg_iter",
+                    t=t,
+                    h_idx=int(h_idx),
+                    n_hs=len(lagrangian.hs),
+                    gap_EG=float(gap_EG),
+                    gap_LP=float(gap_LP),
+                    src="EG" if gap_EG < gap_LP else "LP",
+                    nu=float(self.nu),
+                    qsum={int(k): float(v) for k, v in Qsum.items()},
+                    Q={int(k): float(v) for k, v in Qs[t].items()},
+                    lambda_hat=[float(v) for v in (lambda_EG if gap_EG < gap_LP else self.lambda_vecs_LP_[t])],
+                )
+
             if (gaps[t] < self.nu) and (t >= _MIN_ITER):
                 # solution found
                 break
@@ -264,6 +280,15 @@ class ExponentiatedGradient(BaseEstimator, MetaEstimatorMixin):
                 self.weights_.at[h_idx] = 0.0
 
         self.last_iter_ = len(Qs) - 1
+        if _verif_trace._ON:
+            _verif_trace.emit(
+                "eg_done",
+                best_iter=int(self.best_iter_),
+                best_gap=float(self.best_gap_),
+                last_iter=int(self.last_iter_),
+                max_iter=int(self.max_iter),
+                run_linprog_step=bool(self.run_linprog_step),
+            )
         self.predictors_ = lagrangian.predictors
         self.n_oracle_calls_ = lagrangian.n_oracle_calls
         self.n_oracle_calls_dummy_returned_ = lagrangian.n_oracle_calls_dummy_returned
